@@ -1,8 +1,14 @@
 /-
   C06 — Failed transactions are atomic no-ops.
   Statements about the shell model (OLP/Shell/Model.lean) for ARBITRARY handler programs.
+
+  The gas carve-out: a failed transaction advances the running gas total of the block and nothing
+  else (`failed_tx_noop`). Hence removing the failed transactions of a block changes nothing else
+  as long as the block's meter does not run out (`remove_failed_same_block`); the hypotheses on
+  the handlers follow from their syntax (`RoomBlind.of_syntax`), a concrete block meets all of
+  them (`remove_failed_instance`), and without room the claim fails (`remove_failed_needs_room`).
 -/
-import OLP.Shell.LemmasA
+import OLP.Shell.LemmasGas
 
 namespace OLP.Props.C06
 open OLP OLP.KV OLP.Shell
@@ -50,30 +56,83 @@ theorem deliver_never_touches_tree (n : Node K V C T H D) (tx : T) :
   | some r => rw [deliverTx_hit cfg hs e n tx r h]
   | none => rw [deliverTx_miss cfg hs e n tx h]; exact (deliverCore_frame cfg hs e n tx).1
 
+/-! ### removing the failed transactions
+
+  The hypotheses are the ones real handlers meet (`RoomBlind`, `HooksRoomBlind`; both follow from
+  the SYNTAX of the programs by `RoomBlind.of_syntax` / `HooksRoomBlind.of_syntax`: no `.gas` node
+  outside the fee step, no negative `.burn`), together with the premise that the block's gas meter
+  does not run out. They are all proved for a concrete block below (`Non-vacuity`), and
+  `remove_failed_needs_room` shows that the premise on the meter cannot be dropped. -/
+
 /-- removing every failed transaction from a list of transactions yields the same results for
-    the remaining ones and the same state up to the gas level -/
-theorem remove_failed_deliverAll (hb : GasBlind cfg hs) (hnv : DeliverNoVset hs)
+    the remaining ones and the same state up to the gas level, which the failed ones can only
+    have advanced (`0 ≤ d`).
+
+    No premise on the meter is needed here: since `txDeliverer` fails a transaction that ends
+    with the block gas used up, a transaction that did NOT fail ran below the limit throughout,
+    and so does its twin in the run without the failed ones, whose level is lower. Transactions
+    delivered after the meter ran out have all failed and are removed with the others. -/
+theorem remove_failed_deliverAll (hb : RoomBlind cfg hs) (hnv : DeliverNoVset hs)
     (n : Node K V C T H D) (hs0 : n.dlv.sess = none) (txs : List T) :
     let r := deliverAll cfg hs e n txs
     let r' := deliverAll cfg hs e n (survivors txs r.2)
-    r'.2 = r.2.filter (·.ok) ∧ ∃ d, ShiftNode d r'.1 r.1 :=
-  deliverAll_shift cfg hs e hb hnv txs 0 n n (ShiftNode.rfl0 n) hs0
+    r'.2 = r.2.filter (·.ok) ∧ ∃ d, 0 ≤ d ∧ ShiftNode d r'.1 r.1 :=
+  deliverAll_room_shift cfg hs e hb hnv txs 0 n n (Int.le_refl 0) (ShiftNode.rfl0 n) hs0
 
-/-- block level: same surviving results, same commit write log (hence the same application
-    hash), same tree and volatile memory -/
-theorem remove_failed_same_block (hb : GasBlind cfg hs) (hhb : HooksGasBlind cfg hs)
-    (hnv : DeliverNoVset hs) (ha : AllAimed hs) (n : Node K V C T H D) (txs : List T) :
+/-- block level: if the gas meter of the FULL block (failed transactions included) still has room
+    when EndBlock has run, removing the failed transactions gives the same surviving results, the
+    same commit write log (hence the same application hash), the same tree, volatile memory and
+    height. (Room after EndBlock implies room after the last transaction and after every earlier
+    one, `block_room_after_txs`: nothing lowers the counter.) -/
+theorem remove_failed_same_block (hb : RoomBlind cfg hs) (hhb : HooksRoomBlind cfg hs)
+    (hnv : DeliverNoVset hs) (ha : AllAimed hs) (n : Node K V C T H D) (txs : List T)
+    (hroom : hasRoom (blockEndGas cfg hs e n txs)) :
     let r := execBlock cfg hs e n txs
     let r' := execBlock cfg hs e n (survivors txs r.2.results)
     r'.2.results = r.2.results.filter (·.ok) ∧ r'.2.log = r.2.log ∧
     r'.1.tree = r.1.tree ∧ r'.1.vol = r.1.vol ∧ r'.1.height = r.1.height := by
   have hb0 := (beginBlock_frame cfg hs e n).2.2.2
-  obtain ⟨h1, d, h2⟩ := deliverAll_shift cfg hs e hb hnv txs 0 _ _
+  obtain ⟨h1, d, hd, h2⟩ := deliverAll_room_shift cfg hs e hb hnv txs 0 _ _ (Int.le_refl 0)
     (ShiftNode.rfl0 (beginBlock cfg hs e n)) hb0
-  have h3 := endBlock_shift cfg hs e hhb ha d _ _ h2
+  have h3 := endBlock_room_shift cfg hs e hhb ha d hd _ _ h2 hroom
   obtain ⟨c1, c2, c3⟩ := commit_shift cfg hs d _ _ h3
   refine ⟨h1, ?_, c1.symm, c2.symm, c3.symm⟩
   exact congrArg (fun t : Tree K V => t.log.drop n.tree.log.length) c1.symm
+
+/-- the premise of `remove_failed_same_block` covers the whole block: the meter had room after
+    the last transaction (hence, by `deliverAll_mono`, after each one) -/
+theorem block_room_after_txs (hhb : HooksRoomBlind cfg hs) (ha : AllAimed hs)
+    (n : Node K V C T H D) (txs : List T) (hroom : hasRoom (blockEndGas cfg hs e n txs)) :
+    hasRoom (deliverAll cfg hs e (beginBlock cfg hs e n) txs).1.dlv.gas := by
+  obtain ⟨m1, m2⟩ := endBlock_mono cfg hs e hhb ha (deliverAll cfg hs e (beginBlock cfg hs e n) txs).1
+  unfold blockEndGas at hroom
+  unfold hasRoom at *
+  omega
+
+/-- the meter matters at EndBlock only: an application without EndBlock hooks needs no premise -/
+theorem remove_failed_same_block_of_no_hooks (hb : RoomBlind cfg hs) (hnv : DeliverNoVset hs)
+    (hne : ∀ h, hs.endb h = []) (n : Node K V C T H D) (txs : List T) :
+    let r := execBlock cfg hs e n txs
+    let r' := execBlock cfg hs e n (survivors txs r.2.results)
+    r'.2.results = r.2.results.filter (·.ok) ∧ r'.2.log = r.2.log ∧
+    r'.1.tree = r.1.tree ∧ r'.1.vol = r.1.vol ∧ r'.1.height = r.1.height := by
+  have hb0 := (beginBlock_frame cfg hs e n).2.2.2
+  obtain ⟨h1, d, hd, h2⟩ := deliverAll_room_shift cfg hs e hb hnv txs 0 _ _ (Int.le_refl 0)
+    (ShiftNode.rfl0 (beginBlock cfg hs e n)) hb0
+  have he : ∀ a : Node K V C T H D, endBlock cfg hs e a = a := by
+    intro a; unfold endBlock; rw [hne]; rfl
+  obtain ⟨c1, c2, c3⟩ := commit_shift cfg hs d _ _ h2
+  refine ⟨h1, ?_, ?_, ?_, ?_⟩
+  · show (commit cfg hs (endBlock cfg hs e _)).tree.log.drop _ =
+      (commit cfg hs (endBlock cfg hs e _)).tree.log.drop _
+    rw [he, he]
+    exact congrArg (fun t : Tree K V => t.log.drop n.tree.log.length) c1.symm
+  · show (commit cfg hs (endBlock cfg hs e _)).tree = (commit cfg hs (endBlock cfg hs e _)).tree
+    rw [he, he]; exact c1.symm
+  · show (commit cfg hs (endBlock cfg hs e _)).vol = (commit cfg hs (endBlock cfg hs e _)).vol
+    rw [he, he]; exact c2.symm
+  · show (commit cfg hs (endBlock cfg hs e _)).height = (commit cfg hs (endBlock cfg hs e _)).height
+    rw [he, he]; exact c3.symm
 
 /-! ## Non-vacuity -/
 
@@ -91,5 +150,137 @@ def exN : Node Nat Nat Nat Nat Nat Nat :=
 example : (deliverTx exCfg exH () exN 0).2.ok = false ∧ (deliverTx exCfg exH () exN 7).2.ok = true ∧
     (deliverTx exCfg exH () exN 7).1.dlv.cache = [(1, 7), (2, 7)] ∧
     (deliverTx exCfg exH () exN 0).1.dlv.cache = [] := by decide
+
+/-! ### a concrete block that meets ALL hypotheses of `remove_failed_same_block`
+
+  Validate burns the signature-check gas. ProcessDeliver reads key 1 (a read of the metered block
+  cache), writes keys 1 and 2 into the session and then — transaction 0 only — burns more gas and
+  fails: a failure after partial writes. The fee step reports the gas used since the start level.
+  One EndBlock hook, aimed at the deliver state, reads key 1 (metered) and records its value under
+  key 9 (a metered write, outside any session). The block gas limit is a parameter. -/
+
+def rmCfg : Cfg Nat Nat := { tomb := 0, vlen := fun _ => 1, lt := fun a b => decide (a < b) }
+
+def rmH (limit : Int) : Handlers Nat Nat Nat Unit Nat Nat Nat :=
+  { hash := id, validate := fun _ => .burn 5 (.ret ()), check := fun _ => .ret 0,
+    deliver := fun tx => .get 1 (fun _ => .set 1 (tx + 1) (fun _ => .set 2 (tx + 1) (fun _ =>
+      if tx = 0 then .burn 500 .fail else .ret tx))),
+    fee := fun _ g0 => .gas (fun g => .ret (g - g0)),
+    begin := fun _ => [],
+    endb := fun _ => [(true, .get 1 (fun r => match r with
+      | .val (some v) => .set 9 v (fun _ => .ret ())
+      | _ => .ret ()))],
+    gasLimit := limit }
+
+def rmN (limit : Int) : Node Nat Nat Nat Nat Nat Nat :=
+  { tree := Tree.empty ⟨1, 0, 0⟩, dlv := Ov.fresh limit, chk := Ov.fresh limit, vol := fun _ => none,
+    idx := [], aim := .check, height := 0, closed := false }
+
+/-- the handlers are `RoomBlind`, whatever the limit: by syntax -/
+theorem rm_roomBlind (limit : Int) : RoomBlind rmCfg (rmH limit) := by
+  refine RoomBlind.of_syntax rmCfg (rmH limit) ?_ ?_ (fun _ x => .ret x) (fun _ _ => rfl)
+    (fun _ _ => ⟨trivial, trivial⟩)
+  · intro tx
+    exact ⟨by simp [rmH, Prog.NoGasRead], by simp [rmH, Prog.BurnNonneg]⟩
+  · intro tx
+    constructor
+    · simp only [rmH, Prog.NoGasRead]
+      intro _ _ _
+      split <;> simp [Prog.NoGasRead]
+    · simp only [rmH, Prog.BurnNonneg]
+      intro _ _ _
+      split <;> simp [Prog.BurnNonneg]
+
+theorem rm_hooksRoomBlind (limit : Int) : HooksRoomBlind rmCfg (rmH limit) := by
+  apply HooksRoomBlind.of_syntax
+  intro h hk hm
+  simp only [rmH, List.mem_singleton] at hm
+  subst hm
+  constructor
+  · simp only [Prog.NoGasRead]
+    intro r
+    split <;> simp [Prog.NoGasRead]
+  · simp only [Prog.BurnNonneg]
+    intro r
+    split <;> simp [Prog.BurnNonneg]
+
+theorem rm_noVset (limit : Int) : DeliverNoVset (rmH limit) := by
+  intro tx
+  refine ⟨by simp [rmH, Prog.NoVset], ?_, fun g => by simp [rmH, Prog.NoVset]⟩
+  simp only [rmH, Prog.NoVset]
+  intro _ _ _
+  split <;> simp [Prog.NoVset]
+
+theorem rm_aimed (limit : Int) : AllAimed (rmH limit) := by
+  intro h
+  constructor
+  · intro hk hm; simp [rmH] at hm
+  · intro hk hm
+    simp only [rmH, List.mem_singleton] at hm
+    subst hm
+    rfl
+
+/-- with a limit of 10000 the block `[5, 0, 7]` ends with room -/
+theorem rm_room : hasRoom (blockEndGas rmCfg (rmH 10000) () (rmN 10000) [5, 0, 7]) := by decide
+
+/-- what the block does: transaction 0 fails, after it wrote keys 1 and 2 into its session
+    (which is discarded), the other two succeed; 556 + 27 + 27 + 242 units of gas are consumed -/
+theorem rm_block_facts :
+    let r := execBlock rmCfg (rmH 10000) () (rmN 10000) [5, 0, 7]
+    r.2.results = [⟨true, some 5, 25⟩, ⟨false, none, 527⟩, ⟨true, some 7, 27⟩] ∧
+    survivors [5, 0, 7] r.2.results = [5, 7] ∧
+    (txRun rmCfg (rmH 10000) () 0 ((Ov.fresh 10000).toSt (rmN 10000).tree).begin (fun _ => none)).2.1.sess
+      = some [(1, 1), (2, 1)] ∧
+    r.2.log = [.set 1 8, .set 2 8, .set 9 8, .save] ∧
+    blockEndGas rmCfg (rmH 10000) () (rmN 10000) [5, 0, 7] = ⟨10000, 821⟩ := by
+  dsimp only
+  decide
+
+/-- `remove_failed_same_block` applied to this block: all its hypotheses are proved -/
+theorem remove_failed_instance :
+    let r := execBlock rmCfg (rmH 10000) () (rmN 10000) [5, 0, 7]
+    let r' := execBlock rmCfg (rmH 10000) () (rmN 10000) (survivors [5, 0, 7] r.2.results)
+    r'.2.results = r.2.results.filter (·.ok) ∧ r'.2.log = r.2.log ∧
+    r'.1.tree = r.1.tree ∧ r'.1.vol = r.1.vol ∧ r'.1.height = r.1.height :=
+  remove_failed_same_block rmCfg (rmH 10000) () (rm_roomBlind 10000) (rm_hooksRoomBlind 10000)
+    (rm_noVset 10000) (rm_aimed 10000) (rmN 10000) [5, 0, 7] rm_room
+
+/-- … and its conclusion, spelled out and recomputed: the block without transaction 0 -/
+example :
+    (execBlock rmCfg (rmH 10000) () (rmN 10000) [5, 7]).2.results =
+      [⟨true, some 5, 25⟩, ⟨true, some 7, 27⟩] ∧
+    (execBlock rmCfg (rmH 10000) () (rmN 10000) [5, 7]).2.log = [.set 1 8, .set 2 8, .set 9 8, .save] ∧
+    blockEndGas rmCfg (rmH 10000) () (rmN 10000) [5, 7] = ⟨10000, 294⟩ := by
+  decide
+
+/-! ### the premise on the meter is needed -/
+
+/-- WITHOUT room the block-level claim is false in the model. Same handlers (all other hypotheses
+    of `remove_failed_same_block` hold: `rm_roomBlind 300` etc.), block gas limit 300: the failed
+    transaction 0 uses up the meter, so in the full block the EndBlock hook's read is refused and
+    it writes nothing; without transaction 0 the hook is served and writes key 9. The surviving
+    results agree, the commit logs (hence the application hashes) do not. -/
+theorem remove_failed_needs_room :
+    let r := execBlock rmCfg (rmH 300) () (rmN 300) [5, 0]
+    let r' := execBlock rmCfg (rmH 300) () (rmN 300) (survivors [5, 0] r.2.results)
+    ¬ hasRoom (blockEndGas rmCfg (rmH 300) () (rmN 300) [5, 0]) ∧
+    r'.2.results = r.2.results.filter (·.ok) ∧
+    r.2.log = [.set 1 6, .set 2 6, .save] ∧ r'.2.log = [.set 1 6, .set 2 6, .set 9 6, .save] ∧
+    r'.2.log ≠ r.2.log := by
+  dsimp only
+  decide
+
+/-- why `failed_tx_noop` carves out the gas level: a failed transaction that uses up the meter
+    makes a later one fail that succeeds without it (its read is refused, its handler still
+    returns, and `txDeliverer` fails it because the block gas is used up). That later transaction
+    has then failed too, and `remove_failed_*` remove it with the first: this is why
+    `remove_failed_deliverAll` needs no premise on the meter while removing ONE failed
+    transaction would. -/
+theorem failed_tx_starves_later :
+    let n := beginBlock rmCfg (rmH 300) () (rmN 300)
+    (deliverAll rmCfg (rmH 300) () n [0, 7]).2 = [⟨false, none, 525⟩, ⟨false, some 7, 5⟩] ∧
+    (deliverAll rmCfg (rmH 300) () n [7]).2 = [⟨true, some 7, 25⟩] := by
+  dsimp only
+  decide
 
 end OLP.Props.C06
